@@ -80,7 +80,43 @@ def oracle(T, k, s, vals):
     return out
 
 
+def impl_chain(T, k1, k2, vals):
+    """two chained LinearReconstructEveryK filters (the Recorder API allows any sequence of modules)"""
+    j = J()
+    jnp, jax = j["jnp"], j["jax"]
+    rec = j["Recorder"](modules=[j["EveryK"](k=k1), j["EveryK"](k=k2)])
+    rec, state = rec.init_state({"f": jax.ShapeDtypeStruct((2,), jnp.float64)}, max_time_steps=T, backend="cpu")
+    key = jax.random.PRNGKey(0)
+    for t in range(T):
+        state = rec.compress({"f": jnp.asarray([vals[t], vals[t]])}, state, jnp.asarray(t, dtype=jnp.int32), key)
+    return [float(rec.decompress(state, jnp.asarray(t, dtype=jnp.int32), key)[0]["f"][0]) for t in range(T)]
+
+
+def chain_fails(T, k1, k2, vals):
+    """composition of the property's single-filter rule: the second filter reconstructs the latent series of the first"""
+    s1 = list(range(0, T, k1))
+    if s1[-1] != T - 1:
+        s1.append(T - 1)
+    latent = [vals[t] for t in s1]
+    lat_rec = oracle(len(s1), k2, 0, latent)
+    got = impl_chain(T, k1, k2, vals)
+    scale = max(1.0, max(abs(x) for x in vals))
+    for t in range(T):
+        if t in s1:
+            exp = lat_rec[s1.index(t)]
+        else:
+            p = max(u for u in s1 if u < t)
+            n = min(u for u in s1 if u > t)
+            a, b = lat_rec[s1.index(p)], lat_rec[s1.index(n)]
+            exp = a + (t - p) / (n - p) * (b - a)
+        if not abs(got[t] - exp) <= 2e-6 * scale:
+            return f"chained EveryK({k1}) -> EveryK({k2}), T={T}: decompress({t}) = {got[t]!r}, composition of the interpolation rule gives {exp!r}"
+    return None
+
+
 def property_fails(T, k, s, vals, pipeline="everyk", got=None, rerun=False):
+    if pipeline == "chain":
+        return chain_fails(T, k, s, vals)       # here `s` carries the second filter's k
     v = [float(np.float32(x)) for x in vals] if pipeline != "everyk" else vals
     got = impl_run(T, k, s, v, pipeline, rerun) if got is None else got
     if pipeline == "widen":
@@ -137,6 +173,20 @@ def run(ctx):
         ctx.expect_close("dec", case, got[s:], model, tol=5e-7 if pipeline == "everyk" else 1e-6)
         ctx.impl_property_evals += 1
         d = property_fails(T, k, s, vals, pipeline, got, rerun)
+        if d:
+            ctx.violation(case, d)
+    # two chained time filters (oracle only: composition of the single-filter rule); the last slot of the first
+    # filter is off the second filter's grid in the forced cases
+    chains = [(12, 2, 4), (13, 3, 3)]
+    while len(chains) < ctx.scale(4, 24):
+        T = ctx.rng.randint(6, ctx.scale(14, 24))
+        chains.append((T, ctx.rng.randint(1, 4), ctx.rng.randint(2, 4)))
+    for (T, k1, k2) in chains:
+        vals = [ctx.rng.uniform(-5, 5) for _ in range(T)]
+        case = {"T": T, "k": k1, "s": k2, "vals": vals, "pipeline": "chain"}
+        ctx.case(nontrivial=("chain", T, k1, k2), op="chain")
+        ctx.impl_property_evals += 1
+        d = chain_fails(T, k1, k2, vals)
         if d:
             ctx.violation(case, d)
     # widening conversion alone: exact round trip
